@@ -466,7 +466,7 @@ pub fn check_c15(tier: Tier) -> i32 {
     // calls, rewinds, clear): slices and readers are checked around the cursor and the capacity after every step
     use Op::*;
     use Sz::*;
-    let alphabet = vec![B(N(7)), B(N(40)), B(R), B(Rp(1)), B(Rp(5)), T(U64), AB(A16, N(9)), AB(U64, Rm(8)), BO(N(16)), D(0), D(1), Disc, IncDisc(3), SetMin(0), Rewind(Pos::Start(0)), Rewind(Pos::End(0)), Rewind(Pos::Cur(-9)), Rewind(Pos::Cur(1 << 40)), Clear];
+    let alphabet = vec![B(N(7)), B(N(40)), B(R), B(Rp(1)), B(Rp(5)), T(U64), AB(A16, N(9)), AB(U64, Rm(8)), BO(N(16)), D(0), D(1), Disc, IncDisc(3), SetMin(0), Rewind(Pos::Start(0)), Rewind(Pos::End(0)), Rewind(Pos::Cur(-9)), Rewind(Pos::Cur(1 << 40)), Rewind(Pos::Cur((1i64 << 32) - 32)), Clear];
     let depth = if thorough { 5 } else { 4 };
     let spec = Spec { alphabet: alphabet.clone(), depth, oracles: O_READERS, sync: true, unsync: true, diff: false, diff_prop: "C15" };
     let mut hcells: Vec<Cfg> = crate::props_hist::cells(&[(Backend::Vec, false), (Backend::Vec, true), (Backend::File, true)], 225, 256);
@@ -907,7 +907,9 @@ fn c16_side_by_side(run: &Run, alphabet: &[Op], depth: usize, fl: Fl, reserved: 
       let r = p.rs.as_mut().unwrap();
       for (k, op) in word.iter().enumerate() {
         let mut v = vec![];
-        match r.step(*op, O_LAYOUT, &mut v) {
+        // (the harness fills every new handle with its pattern right after the call: what the three backends hold at
+        // the moment of the return is compared through the zero oracle, on each of them)
+        match r.step(*op, O_LAYOUT | O_ZERO, &mut v) {
           None => {
             cut = Some(cut.map(|c| c.min(k)).unwrap_or(k));
             break;
@@ -1097,7 +1099,7 @@ fn positions(allocated: u32, dof: u32, cap: u32) -> Vec<Pos> {
   let a = allocated as i64;
   let c = cap as i64;
   let d = dof as i64;
-  for x in [i64::MIN, i64::MIN + 1, -(1i64 << 32), -c - 1, -c, -a - 1, -a, -a + 1, d - a - 1, d - a, d - a + 1, -1, 0, 1, c - a - 1, c - a, c - a + 1, 1i64 << 32, i64::MAX - a - 1, i64::MAX - a, i64::MAX - a + 1, i64::MAX - 1, i64::MAX] {
+  for x in [i64::MIN, i64::MIN + 1, -(1i64 << 32), -c - 1, -c, -a - 1, -a, -a + 1, d - a - 1, d - a, d - a + 1, -1, 0, 1, c - a - 1, c - a, c - a + 1, 1i64 << 32, (1i64 << 32) - a, (1i64 << 32) - a + d - 1, (1i64 << 32) - a + d, (1i64 << 32) - a + c + 1, (1i64 << 32) + 1, 1i64 << 33, (1i64 << 40) - a, -(1i64 << 32) - a + d, i64::MAX - a - 1, i64::MAX - a, i64::MAX - a + 1, i64::MAX - 1, i64::MAX] {
     v.push(Pos::Cur(x));
   }
   v
@@ -1277,6 +1279,67 @@ fn c17_clear(run: &Run, cfg: &Cfg, hist_alpha: &[Op], hd: usize, cont_alpha: &[O
   }
 }
 
+/// clear() after the arena was shrunk, followed by growing it again: the data area of the cleared arena is that of a
+/// fresh arena resized the same way (all zero); bytes written before the shrink must not come back
+fn c17_clear_after_resize(run: &Run) {
+  type U = unsync::Arena;
+  for (backend, unify, reserved) in [(Backend::Vec, false, 0u32), (Backend::Vec, true, 5), (Backend::Anon, true, 0), (Backend::Anon, false, 5)] {
+    for (small, big) in [(128usize, 384usize), (64, 256), (200, 201)] {
+      for back in [0u8, 1, 2] {
+        let mut cfg = Cfg::new(Fl::Optimistic, backend, unify, 256 + reserved);
+        cfg.reserved = reserved;
+        let case = json!({"engine": "c17-resize", "tag": "C17", "cfg": cfg, "small": small, "big": big, "back": back});
+        crate::crashguard::set_case(crate::crashguard::head_of(&case));
+        let r = std::panic::catch_unwind(std::panic::AssertUnwindSafe(|| -> Option<String> {
+          let mut a: U = build::<U>(&cfg, None).expect("arena");
+          let mut fresh: U = build::<U>(&cfg, None).expect("arena");
+          let dof = a.data_offset();
+          // write everywhere, then move the cursor back (top release / rewind / rewind to the start)
+          let mut b = a.alloc_bytes(a.remaining() as u32).ok()?;
+          let (o, c) = (b.offset(), b.capacity());
+          unsafe { std::ptr::write_bytes(a.raw_mut_ptr().add(o), 0xA5, c) };
+          match back {
+            0 => drop(b),
+            1 => {
+              unsafe { b.detach() };
+              drop(b);
+              unsafe { a.rewind(ArenaPosition::Start((dof + 24) as u32)) };
+            }
+            _ => {
+              unsafe { b.detach() };
+              drop(b);
+              unsafe { a.rewind(ArenaPosition::Start(0)) };
+            }
+          }
+          for x in [&mut a, &mut fresh] {
+            x.truncate(small.max(x.allocated())).ok()?;
+          }
+          unsafe { a.clear().ok()? };
+          for x in [&mut a, &mut fresh] {
+            x.truncate(big).ok()?;
+          }
+          run.eval(1);
+          if a.allocated() != fresh.allocated() || a.capacity() != fresh.capacity() {
+            return Some(format!("cursor / capacity {} / {} on the cleared arena, {} / {} on the fresh one", a.allocated(), a.capacity(), fresh.allocated(), fresh.capacity()));
+          }
+          let (da, df) = (&a.memory()[dof..], &fresh.memory()[dof..]);
+          if da != df {
+            let at = da.iter().zip(df.iter()).position(|(x, y)| x != y).map(|i| i + dof);
+            return Some(format!("data area differs from that of a fresh arena resized the same way, first at offset {:?} (byte {:#04x})", at, at.map(|i| a.memory()[i]).unwrap_or(0)));
+          }
+          None
+        }));
+        match r {
+          Ok(None) => {}
+          Ok(Some(m)) => viol(run, "C17", "clear-after-resize", format!("[unsync {:?} unify={} reserved {} | fill, cursor back ({}), truncate({}), clear, truncate({})] {}", backend, unify, reserved, back, small, big, m), case),
+          Err(_) => viol(run, "C17", "clear-after-resize:panicked", format!("[unsync {:?} unify={} reserved {}] panicked", backend, unify, reserved), case),
+        }
+        crate::crashguard::clear_case();
+      }
+    }
+  }
+}
+
 pub fn check_c17(tier: Tier) -> i32 {
   let run = Run::new("C17", tier, "model_checking");
   let thorough = tier == Tier::Thorough;
@@ -1332,6 +1395,7 @@ pub fn check_c17(tier: Tier) -> i32 {
     v
   };
   par_for_each(&ccells, |_, c| c17_clear(&run, c, &hist_alpha, if thorough { 4 } else { 3 }, &cont_alpha, if thorough { 3 } else { 2 }));
+  c17_clear_after_resize(&run);
   run.sample(|| json!({"rewind_grid": "rewind(Current(i64::MAX)) with allocated 73, capacity 200 -> cursor must be 200", "clear": "history B(40) B(7) D0 SetMin(0) ; clear ; continuation B(R) D0 -> same observations as SetMin(0) B(R) D0 on a fresh arena"}));
   run.rule("(a) every ArenaPosition of a boundary-dense grid (u32 and i64 extremes, neighbours of 0 / data_offset / allocated / capacity) in 5 arena states x 16 configuration cells x 2 flavours against an i128 reference clamp; (b) every history of the stated depth containing rewinds; (c) every history x clear x every continuation compared step by step with the continuation on a fresh arena; evaluations = rewinds + histories");
   run.set("bounds", json!({"history_depth": spec.depth, "clear_history_depth": if thorough { 4 } else { 3 }, "continuation_depth": if thorough { 3 } else { 2 }}));
@@ -1436,7 +1500,7 @@ fn c18_cell(run: &Run, cfg: &Cfg, alphabet: &[Op], depth: usize, ns: &[usize], s
             r2.min_in_force = min_in_force;
             r2.first_alloc_done = true;
             for (m, pat) in &lives {
-              r2.pinned.push(Live { h: None, m: *m, pat: *pat, needs_drop: false, owned: false, refs_delta: 0 });
+              r2.pinned.push(Live { h: None, m: *m, pat: *pat, needs_drop: false, owned: false, refs_delta: 0, dropped_at_write: 0 });
             }
             let rem = r2.a.remaining() as u32;
             // follow-ups rotate with the case: byte requests around the new end, and an aligned
@@ -1625,6 +1689,11 @@ pub fn replay(case: &serde_json::Value) -> i32 {
     "c15" => check_c15(Tier::Quick),
     "c16" | "c16-sbs" => check_c16(Tier::Quick),
     "c17-clear" => check_c17(Tier::Quick),
+    "c17-resize" => {
+      let run = Run::new("C17", Tier::Quick, "model_checking");
+      c17_clear_after_resize(&run);
+      run.finish()
+    }
     "c18" | "c18-ro" => check_c18(Tier::Quick),
     "c19" => check_c19(Tier::Quick),
     e => {
